@@ -28,14 +28,21 @@ Section Closed.
   Variable g : gschema.
   Variable pick : list string -> option string.
 
-  Definition knows (svc ty : string) : Prop := owns g svc ty federation_field = true.
+  (** [svc] serves every field of the plain object *)
+  Definition serves (svc : string) : Prop :=
+    forall f rty owners, find_gfield g "Leaf" f = Some (rty, owners) -> In svc owners.
+
+  (** [svc] can be sent selections on [ty]: it has _federation on it -- or [ty] is the plain object and it serves all of it *)
+  Definition knows (svc ty : string) : Prop :=
+    (ty <> "Leaf" /\ owns g svc ty federation_field = true) \/ (ty = "Leaf" /\ serves svc).
 
   (** what the federation's own validation guarantees about the services (validateFederatedObjects,
       validateFederationKeys, and a service registering the objects its fields return) *)
   Hypothesis pick_sound : forall l s, pick l = Some s -> In s l.
   Hypothesis keys_served : forall ty svc others,
-    knows svc ty -> closed_node g svc (RObj ty) (key_selection g ty others) = true.
-  Hypothesis owner_knows : forall svc ty f, owns g svc ty f = true -> knows svc ty.
+    ty <> "Leaf" -> owns g svc ty federation_field = true -> closed_node g svc (RObj ty) (key_selection g ty others) = true.
+  Hypothesis owner_knows : forall svc ty f, ty <> "Leaf" -> owns g svc ty f = true -> owns g svc ty federation_field = true.
+  Hypothesis leaf_no_selector : forall f rty owners, find_gfield g "Leaf" f = Some (rty, owners) -> selector_of g "Leaf" f = None.
   Hypothesis returns_known_obj : forall svc ty f o owners,
     find_gfield g ty f = Some (RObj o, owners) -> In svc owners ->
     ~ (ty = "Query" /\ f = federation_field) -> knows svc o.
@@ -80,6 +87,16 @@ Section Closed.
       exists rty, owners. split; auto. eapply select_service_owner; eauto.
   Qed.
 
+  (** on the plain object, a service that serves all of it keeps every selection *)
+  Lemma leaf_target : forall svc n n' s, serves svc -> target_of g pick "Leaf" svc n = Some (n', s) -> s = svc.
+  Proof.
+    intros svc n n' s Hserv H. destruct n as [al nm args ak dirs hs subs|]; simpl in H; [|discriminate].
+    destruct (String.eqb nm "__typename"); [inversion H; reflexivity|].
+    destruct (find_gfield g "Leaf" nm) as [[rty owners]|] eqn:Ef; [|discriminate].
+    unfold select_service in H. rewrite (leaf_no_selector _ _ _ Ef) in H.
+    pose proof (Hserv _ _ _ Ef) as Hin. apply (proj2 (existsb_eqb_In _ _)) in Hin. rewrite Hin in H. inversion H. reflexivity.
+  Qed.
+
   Lemma in_owners_owns : forall svc ty f rty owners,
     find_gfield g ty f = Some (rty, owners) -> In svc owners -> owns g svc ty f = true.
   Proof. intros. unfold owns. rewrite H. apply existsb_eqb_In; auto. Qed.
@@ -102,8 +119,17 @@ Section Closed.
         clear -Ftag pick_sound Hsub. intros n s Hin. induction Ftag as [|x [n' s'] l l' Hx _ IHF]; [contradiction|].
         destruct Hin as [Heq|Hin]; [|apply IHF; auto; intros y Hy; apply Hsub; right; exact Hy]. inversion Heq; subst.
         destruct (target_of_spec _ _ _ _ _ Hx) as [-> Hs]. split; [apply Hsub; left; reflexivity | exact Hs]. }
+      assert (Htar : forall n s, In (n, s) tagged -> exists x, target_of g pick obj svc x = Some (n, s)).
+      { clear -Ftag. intros n s Hin. induction Ftag as [|x p l l' Hx _ IHF]; [contradiction|].
+        destruct Hin as [<-|Hin]; [exists x; exact Hx | apply IHF; exact Hin]. }
       remember (map fst (filter (fun p => String.eqb (snd p) svc) tagged)) as loc.
       remember (sorted_names (map snd (filter (fun p => negb (String.eqb (snd p) svc)) tagged))) as other_names.
+      assert (Hleafnil : obj = "Leaf" -> serves svc -> other_names = []).
+      { intros Hl Hserv. destruct other_names as [|o1 orest]; [reflexivity|]. exfalso.
+        assert (Hin : In o1 (o1 :: orest)) by (left; reflexivity). rewrite Heqother_names in Hin.
+        apply (proj1 (sorted_names_In _ _)) in Hin. apply in_map_iff in Hin as [[n s] [Hs Hin]]. simpl in Hs; subst s.
+        apply filter_In in Hin as [Hin Hne]. simpl in Hne. destruct (Htar n o1 Hin) as [x Hx]. rewrite Hl in Hx.
+        rewrite (leaf_target _ _ _ _ Hserv Hx) in Hne. rewrite String.eqb_refl in Hne. discriminate. }
       match type of H with match mapo ?f loc with _ => _ end = _ => destruct (mapo f loc) as [planned|] eqn:Ep; [|discriminate];
         pose proof (mapo_Forall2 _ _ _ Ep) as Fpl end.
       match type of H with match mapo ?f other_names with _ => _ end = _ => destruct (mapo f other_names) as [oplans|] eqn:Eo; [|discriminate];
@@ -149,19 +175,21 @@ Section Closed.
       destruct Hloc as [L1 L2].
       (* sub-plans of the other services *)
       assert (Hoth : forallb (plan_closed g) oplans = true).
-      { assert (Hon : forall o, In o other_names -> knows o obj).
+      { pose proof Hctx as Hctx'. simpl in Hctx'. destruct Hctx' as [[Hnl Hown0]|[Hl Hserv]].
+        2:{ rewrite (Hleafnil Hl Hserv) in Fo. inversion Fo. reflexivity. }
+        assert (Hon : forall o, In o other_names -> knows o obj).
         { intros o Ho. subst other_names. apply (proj1 (sorted_names_In _ _)) in Ho. apply in_map_iff in Ho as [[n s] [Hs Hin]].
           simpl in Hs; subst s. apply filter_In in Hin as [Hin Hne]. simpl in Hne.
           destruct (Htag n o Hin) as [_ [al [nm [args [ak [dirs [hs [subs [-> Hcase]]]]]]]]].
           destruct Hcase as [[_ ->]|[rty [owners [Hf Hown]]]].
           - rewrite String.eqb_refl in Hne. discriminate.
-          - eapply owner_knows. eapply in_owners_owns; eauto. }
+          - left. split; [exact Hnl|]. eapply owner_knows; [exact Hnl|]. eapply in_owners_owns; eauto. }
         assert (Hosub : forall o, RObj obj = RObj "Query" ->
                   forallb not_fed (map fst (filter (fun p : node * string => String.eqb (snd p) o) tagged)) = true).
         { intros o Hq. apply forallb_forall. intros n Hn. apply in_map_iff in Hn as [[n' s] [Hn' Hin]]. simpl in Hn'; subst n'.
           apply filter_In in Hin as [Hin _]. destruct (Htag n s Hin) as [Hinsels _].
           specialize (Hnf Hq). eapply forallb_forall in Hnf; eauto. }
-        clear Heqother_names Eo H. induction Fo as [|o p l l' Hp _ IHF]; simpl; auto.
+        clear Heqother_names Eo H Hleafnil. induction Fo as [|o p l l' Hp _ IHF]; simpl; auto.
         rewrite IHF by (intros o' Ho'; apply Hon; right; exact Ho'). rewrite andb_true_r.
         match type of Hp with match plan_ty g pick fuel (RObj obj) ?osels o with _ => _ end = _ =>
           destruct (plan_ty g pick fuel (RObj obj) osels o) as [[os oafters]|] eqn:Ec; [|discriminate] end.
@@ -176,7 +204,8 @@ Section Closed.
         * inversion H; subst. split.
           -- rewrite forallb_app. apply andb_true_intro. split; [exact L1|].
              change (closed_node g svc (RObj obj) (key_selection g obj (o1 :: orest)) && true = true).
-             rewrite (keys_served obj svc (o1 :: orest) Hctx). reflexivity.
+             simpl in Hctx. destruct Hctx as [[Hnl Hown0]|[Hl Hserv]]; [|discriminate (Hleafnil Hl Hserv)].
+             rewrite (keys_served obj svc (o1 :: orest) Hnl Hown0). reflexivity.
           -- rewrite forallb_app, L2, Hoth. reflexivity.
     - (* union *)
       destruct (union_members g u) as [ms|] eqn:Eu; [|discriminate].
@@ -259,7 +288,7 @@ Section Closed.
         destruct (Htag n o Hin) as [_ [al [nm [args [ak [dirs [hs [subs [-> Hcase]]]]]]]]].
         destruct Hcase as [[_ ->]|[rty [owners [Hf Hown]]]].
         - rewrite String.eqb_refl in Hne. discriminate.
-        - eapply owner_knows. eapply in_owners_owns; eauto. }
+        - left. split; [discriminate|]. eapply owner_knows; [discriminate|]. eapply in_owners_owns; eauto. }
       assert (Hosub : forall o, RObj "Query" = RObj "Query" ->
                 forallb not_fed (map fst (filter (fun p : node * string => String.eqb (snd p) o) tagged)) = true).
       { intros o _. apply forallb_forall. intros n Hn. apply in_map_iff in Hn as [[n' s] [Hn' Hin]]. simpl in Hn'; subst n'.
@@ -298,17 +327,57 @@ Proof.
   exists owners. split; auto. apply in_map_iff. exists (ty, f, rty, owners). auto.
 Qed.
 
+Lemma union_members_in : forall g u ms, union_members g u = Some ms -> In (u, ms) (g_unions g).
+Proof.
+  intros g u ms Hu. unfold union_members in Hu. induction (g_unions g) as [|[k v] t IH]; simpl in Hu; [discriminate|].
+  destruct (String.eqb u k) eqn:E.
+  - inversion Hu; subst. apply String.eqb_eq in E. subst. left; reflexivity.
+  - right. apply IH; exact Hu.
+Qed.
+
+Section FromPlain.
+  Variable g : gschema.
+  Hypothesis Hpl : plain_ok g = true.
+
+  Lemma plain_fields : forall f rty owners, find_gfield g "Leaf" f = Some (rty, owners) ->
+    rty = RScalar /\ selector_of g "Leaf" f = None.
+  Proof.
+    intros f rty owners E. unfold plain_ok in Hpl. apply andb_prop in Hpl as [H _]. apply andb_prop in H as [H _].
+    apply find_gfield_in in E. eapply forallb_forall in H; [|exact E]. cbv beta iota zeta in H.
+    unfold is_leaf in H. rewrite String.eqb_refl in H. simpl in H. apply andb_prop in H as [H1 H2].
+    split; [destruct rty; try discriminate; reflexivity | destruct (selector_of g "Leaf" f); [discriminate | reflexivity]].
+  Qed.
+
+  Lemma plain_served : forall ty f owners svc, find_gfield g ty f = Some (RObj "Leaf", owners) -> In svc owners ->
+    forall f' rty' owners', find_gfield g "Leaf" f' = Some (rty', owners') -> In svc owners'.
+  Proof.
+    intros ty f owners svc E Hs f' rty' owners' E'. unfold plain_ok in Hpl. apply andb_prop in Hpl as [H _]. apply andb_prop in H as [_ H].
+    apply find_gfield_in in E. eapply forallb_forall in H; [|exact E]. cbv beta iota zeta in H.
+    unfold is_leaf in H. rewrite String.eqb_refl in H. simpl in H. eapply forallb_forall in H; [|exact Hs].
+    unfold serves_leaf in H. apply find_gfield_in in E'. eapply forallb_forall in H; [|exact E']. cbv beta iota zeta in H.
+    unfold is_leaf in H. rewrite String.eqb_refl in H. simpl in H. apply existsb_eqb_In; exact H.
+  Qed.
+
+  Lemma plain_not_member : forall u ms, union_members g u = Some ms -> ~ In "Leaf" ms.
+  Proof.
+    intros u ms Hu. unfold plain_ok in Hpl. apply andb_prop in Hpl as [_ H].
+    apply union_members_in in Hu. eapply forallb_forall in H; [|exact Hu]. change (snd (u, ms)) with ms in H.
+    apply negb_true_iff in H. intros Hq.
+    assert (existsb is_leaf ms = true) by (apply existsb_exists; exists "Leaf"; split; [exact Hq | reflexivity]). congruence.
+  Qed.
+End FromPlain.
+
 Section FromBool.
   Variable g : gschema.
   Hypothesis Hok : fed_ok g = true.
 
   Lemma fed_ok_parts :
     (forall ty f rty owners, In (ty, f, rty, owners) (g_fields g) ->
-       (forall svc, In svc owners -> owns g svc ty federation_field = true /\
+       (forall svc, In svc owners -> (ty <> "Leaf" -> owns g svc ty federation_field = true) /\
           (~ (ty = "Query" /\ f = federation_field) ->
            match rty with
            | RScalar => True
-           | RObj o => owns g svc o federation_field = true
+           | RObj o => o <> "Leaf" -> owns g svc o federation_field = true
            | RUnion u => exists ms, union_members g u = Some ms /\ forall m, In m ms -> owns g svc m federation_field = true
            end)) /\
        (forall o, rty = RObj o -> o <> "Query") /\
@@ -325,11 +394,14 @@ Section FromBool.
     split; [|split; [|split; [|split]]].
     - intros ty f rty owners Hin. eapply forallb_forall in C1; [|exact Hin]. simpl in C1.
       apply andb_prop in C1 as [C1' Cc]. apply andb_prop in C1' as [Ca Cb]. split; [|split].
-      + intros svc Hs. eapply forallb_forall in Ca; [|exact Hs]. apply andb_prop in Ca as [A1 A2]. split; auto.
+      + intros svc Hs. eapply forallb_forall in Ca; [|exact Hs]. apply andb_prop in Ca as [A1 A2]. split.
+        { intros Hnl. apply orb_prop in A1 as [A1|A1]; [|exact A1]. unfold is_leaf in A1. apply String.eqb_eq in A1. contradiction. }
         intros Hne. apply orb_prop in A2 as [A2|A2].
         * exfalso. apply Hne. apply andb_prop in A2 as [X Y]. apply String.eqb_eq in X, Y. auto.
-        * destruct rty as [|o|u]; auto. destruct (union_members g u) as [ms|]; [|discriminate].
-          exists ms. split; auto. intros m Hm. eapply forallb_forall in A2; eauto.
+        * destruct rty as [|o|u]; auto.
+          -- intros Hnl. apply orb_prop in A2 as [A2|A2]; [|exact A2]. unfold is_leaf in A2. apply String.eqb_eq in A2. contradiction.
+          -- destruct (union_members g u) as [ms|]; [|discriminate].
+             exists ms. split; auto. intros m Hm. eapply forallb_forall in A2; eauto.
       + intros o ->. apply negb_true_iff in Cb. intros ->. rewrite String.eqb_refl in Cb. discriminate.
       + intros -> Hq. rewrite String.eqb_refl in Cc. simpl in Cc.
         destruct (String.eqb ty "Query") eqn:Eq; [apply String.eqb_eq in Eq; contradiction|]. simpl in Cc.
@@ -343,19 +415,19 @@ Section FromBool.
     - intros Hc. apply negb_true_iff in C5. apply (proj2 (existsb_eqb_In _ _)) in Hc. congruence.
   Qed.
 
-  Lemma ok_owner_knows : forall svc ty f, owns g svc ty f = true -> owns g svc ty federation_field = true.
+  Lemma ok_owner_knows : forall svc ty f, ty <> "Leaf" -> owns g svc ty f = true -> owns g svc ty federation_field = true.
   Proof.
-    intros svc ty f H. unfold owns in H. destruct (find_gfield g ty f) as [[rty owners]|] eqn:E; [|discriminate].
+    intros svc ty f Hnl H. unfold owns in H. destruct (find_gfield g ty f) as [[rty owners]|] eqn:E; [|discriminate].
     apply existsb_eqb_In in H. destruct fed_ok_parts as [P1 _].
-    destruct (P1 _ _ _ _ (find_gfield_in _ _ _ _ _ E)) as [Ha _]. apply (Ha svc H).
+    destruct (P1 _ _ _ _ (find_gfield_in _ _ _ _ _ E)) as [Ha _]. apply (proj1 (Ha svc H) Hnl).
   Qed.
 
   Lemma ok_returns_obj : forall svc ty f o owners,
     find_gfield g ty f = Some (RObj o, owners) -> In svc owners ->
-    ~ (ty = "Query" /\ f = federation_field) -> owns g svc o federation_field = true.
+    ~ (ty = "Query" /\ f = federation_field) -> o <> "Leaf" -> owns g svc o federation_field = true.
   Proof.
-    intros svc ty f o owners E Hs Hne. destruct fed_ok_parts as [P1 _].
-    destruct (P1 _ _ _ _ (find_gfield_in _ _ _ _ _ E)) as [Ha _]. apply (proj2 (Ha svc Hs) Hne).
+    intros svc ty f o owners E Hs Hne Hnl. destruct fed_ok_parts as [P1 _].
+    destruct (P1 _ _ _ _ (find_gfield_in _ _ _ _ _ E)) as [Ha _]. apply (proj2 (Ha svc Hs) Hne Hnl).
   Qed.
 
   Lemma ok_nothing_returns_query : forall ty f o owners, find_gfield g ty f = Some (RObj o, owners) -> o <> "Query".
@@ -420,17 +492,22 @@ End FromBool.
     (normalised) query that does not itself select the gateway's _federation plumbing field at the root, every
     sub-plan the planner dispatches -- at every depth -- selects only fields its service serves. *)
 Theorem subquery_closed : forall g pick fuel flat p,
-  fed_ok g = true -> (forall l s, pick l = Some s -> In s l) ->
+  fed_ok g = true -> plain_ok g = true -> (forall l s, pick l = Some s -> In s l) ->
   forallb not_fed flat = true ->
   plan_root g pick fuel flat = Some p -> forallb (plan_closed g) (p_after p) = true.
 Proof.
-  intros g pick fuel flat p Hok Hpick Hnf H.
-  eapply (plan_root_closed g pick Hpick); [ | | | | | | |exact Hnf|exact H].
-  - intros ty svc others Hk. apply ok_keys_served; assumption.
-  - intros svc ty f Ho. eapply ok_owner_knows; eauto.
-  - intros svc ty f o owners E Hs Hne. eapply ok_returns_obj; eauto.
+  intros g pick fuel flat p Hok Hpl Hpick Hnf H.
+  eapply (plan_root_closed g pick Hpick); [ | | | | | | | |exact Hnf|exact H].
+  - intros ty svc others Hnl Hk. apply ok_keys_served; assumption.
+  - intros svc ty f Hnl Ho. eapply ok_owner_knows; eauto.
+  - intros f rty owners E. apply (proj2 (plain_fields g Hpl _ _ _ E)).
+  - intros svc ty f o owners E Hs Hne. destruct (string_dec o "Leaf") as [->|Hnl].
+    + right. split; [reflexivity|]. intros f' rty' owners' E'. eapply plain_served; eauto.
+    + left. split; [exact Hnl|]. eapply ok_returns_obj; eauto.
   - intros ty f o owners E. eapply ok_nothing_returns_query; eauto.
   - intros u ms Hu. eapply ok_no_query_member; eauto.
-  - intros svc ty f u owners ms m E Hs Hne Hu Hm. eapply ok_returns_union; eauto.
+  - intros svc ty f u owners ms m E Hs Hne Hu Hm. left. split.
+    + intros ->. apply (plain_not_member g Hpl u ms Hu Hm).
+    + eapply ok_returns_union; eauto.
   - apply ok_coordinator; assumption.
 Qed.
